@@ -427,8 +427,13 @@ def run_check(prop, tier="quick", seed=0, replay=None):
     ev["wall_s"] = round(time.time() - chk.t0, 2)
     ev["violations"] = len(violations)
     if not replay:
-        os.makedirs(os.path.join(ROOT, "evidence"), exist_ok=True)
-        json.dump(ev, open(os.path.join(ROOT, "evidence", f"{prop.id}.json"), "w"), indent=1)
+        # evidence/ is only written by runs against /repo itself; runs against a scratch tree
+        # (VERIF_REPO=...) leave their evidence under work/
+        if os.path.realpath(REPO) == "/repo" and not os.environ.get("VERIF_NO_EVIDENCE"):
+            os.makedirs(os.path.join(ROOT, "evidence"), exist_ok=True)
+            json.dump(ev, open(os.path.join(ROOT, "evidence", f"{prop.id}.json"), "w"), indent=1)
+        else:
+            json.dump(ev, open(os.path.join(chk.work, "evidence_scratch.json"), "w"), indent=1)
     for l in known_lines:
         print(l)
     print(f"[{prop.id}] tier={tier} seed={seed} obligations={discharged}/{len(obl)} cases={len(results)} "
